@@ -150,9 +150,9 @@ def fixed_points(acc: Acc) -> None:
 
 # ---------------------------------------------------------------------------- generated rule sets
 
-WORDS = ['if', 'else', 'def', 'in', 'not', 'x', 'kw', 'end']
+WORDS = ['if', 'else', 'def', 'in', 'not', 'x', 'kw', 'end', 'a\tb', 'k\tv w']  # (two with a literal control character inside)
 SYMS = ['+', '-', '*', '(', ')', '[', ']', ',', ':', '=', '.', '==', '->', ':=']
-REGEXPS = ['[a-z]+', '[A-Z]\\w*', '0|[1-9]\\d*', '[-+]', '[*\\/%]', '<|>|==', '\\*{1,2}', '\\/', '\\/\\/', '[a-z]+:\\/\\/', '\\/[*]']
+REGEXPS = ['[\\\\\\/]', 'a\\\\\\/b', '\\\\', '[a-z]+', '[A-Z]\\w*', '0|[1-9]\\d*', '[-+]', '[*\\/%]', '<|>|==', '\\*{1,2}', '\\/', '\\/\\/', '[a-z]+:\\/\\/', '\\/[*]']
 
 
 class GGen:
@@ -251,7 +251,7 @@ class GGen:
 
 
 def sample_for_regexp(r: random.Random, expr: str) -> str:
-	table = {'\\/': ['/'], '\\/\\/': ['//'], '[a-z]+:\\/\\/': ['http://', 'a://'], '\\/[*]': ['/*'], '[a-z]+': ['a', 'foo', 'zed'], '[A-Z]\\w*': ['A', 'Foo', 'B_1'], '0|[1-9]\\d*': ['0', '7', '42'], '[-+]': ['+'], '[*\\/%]': ['*', '/', '%'], '<|>|==': ['<', '>', '=='], '\\*{1,2}': ['*', '**']}
+	table = {'[\\\\\\/]': ['\\', '/'], 'a\\\\\\/b': ['a\\/b'], '\\\\': ['\\'], '\\/': ['/'], '\\/\\/': ['//'], '[a-z]+:\\/\\/': ['http://', 'a://'], '\\/[*]': ['/*'], '[a-z]+': ['a', 'foo', 'zed'], '[A-Z]\\w*': ['A', 'Foo', 'B_1'], '0|[1-9]\\d*': ['0', '7', '42'], '[-+]': ['+'], '[*\\/%]': ['*', '/', '%'], '<|>|==': ['<', '>', '=='], '\\*{1,2}': ['*', '**']}
 	return r.choice(table.get(expr, ['a']))
 
 
@@ -297,6 +297,17 @@ def layout(tokens: list[str]) -> str:
 	return ''.join(out)
 
 
+_META = []
+
+
+def meta_parser():
+	if not _META:
+		import importlib
+		_, SyntaxParser = engine()
+		_META.append(SyntaxParser(importlib.import_module('data.syntax.gram_rules').gram_rules(), importlib.import_module('data.syntax.gram_tokenizer').gram_tokenizer()))
+	return _META[0]
+
+
 def check_grammar(acc: Acc, case: dict) -> None:
 	R, SyntaxParser = engine()
 	import importlib
@@ -316,7 +327,14 @@ def check_grammar(acc: Acc, case: dict) -> None:
 		acc.violation('pattern-make', gg.broken[0], case)
 		return
 	try:
-		tree = SyntaxParser(gram_rules(), gram_tokenizer()).parse(text, 'entry')
+		tree = meta_parser().parse(text, 'entry')
+		if case['seed'] % 5 == 0:
+			# ... and a fresh instance must read the same text the same way
+			fresh_tree = SyntaxParser(gram_rules(), gram_tokenizer()).parse(text, 'entry')
+			acc.see('obligation', 'long-lived-vs-fresh-parser')
+			if fresh_tree.simplify() != tree.simplify():
+				acc.violation('parser-history-dependent', f'the long-lived meta-grammar parser and a fresh one read this printout differently:\n{text}', case)
+				return
 		g2 = R.Rules.from_ast(tree.simplify())
 	except Exception as e:  # noqa
 		acc.case(sig_of(text), None, nontrivial)
